@@ -58,6 +58,13 @@ pub enum K {
     Advance(u16),
     PopFront,
     Read(u16),
+    /// arena bytes obtained by read_n enter through `extend` (not push / push_borrowed), then their anchor
+    ExtendAnchored(u16),
+    /// arena bytes obtained by read_n: the ANCHOR is pushed first, then the borrowed slice
+    AnchorFirst(u16),
+    /// backfill_or_panic with a value of the wrong size: documented to panic; whoever catches the
+    /// panic must find the iovec unchanged (the placeholder still pending)
+    BackfillWrongSize(u8),
     CloneA,
     /// `B.clone_from(&A)`: B exists (possibly with placeholders of its own pending) and is overwritten
     CloneFromA,
@@ -96,6 +103,9 @@ impl Op {
             K::PushBorrowed(n) => format!("push_borrowed({})", n),
             K::Extend => "extend".to_string(),
             K::PushAnchored(n) => format!("push_anchored({})", n),
+            K::ExtendAnchored(n) => format!("extend_anchored({})", n),
+            K::AnchorFirst(n) => format!("anchor_then_push_borrowed({})", n),
+            K::BackfillWrongSize(i) => format!("backfill_wrong_size({})", i),
             K::Register(n) => format!("register_patch({})", n),
             K::Backfill(i) => format!("backfill({})", i),
             K::Clear => "clear".to_string(),
@@ -141,6 +151,9 @@ impl Op {
             ("push_borrowed", Some(n)) => K::PushBorrowed(n as u16),
             ("extend", None) => K::Extend,
             ("push_anchored", Some(n)) => K::PushAnchored(n as u16),
+            ("extend_anchored", Some(n)) => K::ExtendAnchored(n as u16),
+            ("anchor_then_push_borrowed", Some(n)) => K::AnchorFirst(n as u16),
+            ("backfill_wrong_size", Some(n)) => K::BackfillWrongSize(n as u8),
             ("register_patch", Some(n)) => K::Register(n as u8),
             ("backfill", Some(n)) => K::Backfill(n as u8),
             ("clear", None) => K::Clear,
@@ -476,7 +489,8 @@ impl Exec {
                     i => n > i as usize && !(i as usize == n - 1 && n >= 1 && false),
                 }
             }
-            K::Register(_) => side.pending.len() < 7,
+            K::Register(_) => side.pending.len() < 12,
+            K::BackfillWrongSize(i) => side.pending.len() > i as usize && side.pending.iter().all(|p| p.token.is_some()),
             K::PopFront => !side.iov.stable_prefix().is_empty(),
             K::CloneA => op.side == 0 && self.sides[1].is_none() && side.pending.is_empty(),
             K::CloneFromA => op.side == 0 && self.sides[1].is_some() && side.pending.is_empty() && self.sides[1].as_ref().map(|b| b.pending.iter().all(|p| p.token.is_some())).unwrap_or(false),
@@ -514,6 +528,50 @@ impl Exec {
                 let s = self.sides[si].as_mut().unwrap();
                 s.iov.push_borrowed(p);
                 s.append_bytes(p);
+            }
+            K::AnchorFirst(n) => {
+                let p = self.payload(n as usize);
+                let alloc = self.next_alloc;
+                self.next_alloc += 1;
+                let s = self.sides[si].as_mut().unwrap();
+                let got = s.iov.arena().read_n(Full(p), n as usize, NonZeroUsize::MAX).map_err(|e| format!("read_n failed: {}", e))?;
+                if got.slice() != p {
+                    return Err("read_n returned bytes other than those delivered".into());
+                }
+                self.anchored_ranges.push((got.slice().as_ptr() as usize, got.slice().len(), alloc));
+                let (_, slice, anchor) = unsafe { got.components() };
+                s.iov.push_anchor(anchor);
+                s.iov.push_borrowed(slice);
+                s.append_bytes(p);
+            }
+            K::ExtendAnchored(n) => {
+                let p = self.payload(n as usize);
+                let alloc = self.next_alloc;
+                self.next_alloc += 1;
+                let s = self.sides[si].as_mut().unwrap();
+                let got = s.iov.arena().read_n(Full(p), n as usize, NonZeroUsize::MAX).map_err(|e| format!("read_n failed: {}", e))?;
+                if got.slice() != p {
+                    return Err("read_n returned bytes other than those delivered".into());
+                }
+                self.anchored_ranges.push((got.slice().as_ptr() as usize, got.slice().len(), alloc));
+                let (_, slice, anchor) = unsafe { got.components() };
+                s.iov.extend([IoSlice::new(slice)]);
+                s.iov.push_anchor(anchor);
+                s.append_bytes(p);
+            }
+            K::BackfillWrongSize(i) => {
+                let s = self.sides[si].as_mut().unwrap();
+                let p = s.pending.remove(i as usize);
+                let value = vec![0xC7u8; p.len + 1];
+                // the token is consumed by the call; the entry stays pending in the iovec, so from here
+                // on the model keeps a placeholder that can never be filled (token None)
+                let iov = &mut s.iov;
+                let token = p.token.expect("enabled() checks");
+                let r = catch(std::panic::AssertUnwindSafe(|| iov.backfill_or_panic(token, &value)));
+                if r.is_ok() {
+                    return Err(format!("[content] backfill_or_panic accepted {} bytes for a {}-byte placeholder", p.len + 1, p.len));
+                }
+                s.pending.insert(i as usize, Pending { token: None, pos: p.pos, len: p.len, id: p.id });
             }
             K::Extend => {
                 let p1 = self.payload(3);
